@@ -388,15 +388,21 @@ func c15PathLimits(e *Env) {
 			continue
 		}
 		okSkip := false
-		for _, c := range core.CallsNamed(f, "strings.Index") {
-			for _, ref := range core.Referrers(c.(ssa.Value)) {
-				if b, isB := ref.(*ssa.BinOp); isB && b.Op == token.EQL {
-					if k, isK := core.ConstInt(b.Y); isK && k == 0 {
-						okSkip = true
-					}
+		// a test `segment length == 0` where the length comes from strings.Index (directly or through a helper that computes it)
+		core.Instrs(f, func(in ssa.Instruction) {
+			b, isB := in.(*ssa.BinOp)
+			if !isB || (b.Op != token.EQL && b.Op != token.NEQ) || b.Parent() != f {
+				return
+			}
+			if k, isK := core.ConstInt(b.Y); !isK || k != 0 {
+				return
+			}
+			for _, l := range valueLeaves(b.X) {
+				if c, isC := l.(*ssa.Call); isC && core.CalleeName(c) == "strings.Index" {
+					okSkip = true
 				}
 			}
-		}
+		})
 		e.R.Check(okSkip, rule, q+":skips-empty-segments", e.fpos(f), "an empty segment (separator at position 0) is skipped", "empty segments are not skipped here, unlike in the sibling function")
 	}
 }
@@ -417,6 +423,7 @@ func uintCodecClasses(e *Env, rule string) {
 		n      int
 	}
 	cells := []cell{{"0", 0, 0, 0}, {"1..0xff", 1, 0xff, 1}, {"0x100..0xffff", 0x100, 0xffff, 2}, {"0x10000..0xffffff", 0x10000, 0xffffff, 3}, {"0x1000000..", 0x1000000, 0xffffffff, 4}}
+	allClassesOK := true
 	for _, c := range cells {
 		construct := "message.EncodeUint32↔DecodeUint32:class " + c.name
 		// the destination has exactly c.n bytes: the encoder's own length guard must make that sufficient
@@ -442,6 +449,9 @@ func uintCodecClasses(e *Env, rule string) {
 				continue
 			}
 			for _, ev := range o.St.Events {
+				if strings.HasPrefix(ev, "narrow@") && strings.Contains(ev, " to byte ") {
+					continue // taking the low byte of a shifted value is how bytes are extracted; the content of every byte is checked below
+				}
 				ok, why = false, "out-of-range write / wrap: "+ev
 			}
 			bs := o.St.Bytes(buf)
@@ -473,12 +483,59 @@ func uintCodecClasses(e *Env, rule string) {
 			}
 		}
 		e.R.Check(ok, rule, construct, e.fpos(enc), fmt.Sprintf("%d byte(s), big-endian bytes of v, decoder returns v", c.n), why)
+		if !ok {
+			allClassesOK = false
+		}
+		// with less room than the class needs the encoder refuses and reports the size it needs (callers grow by it and retry)
+		for _, room := range []int{c.n - 1, 0} {
+			if room < 0 || (room == 0 && c.n <= 1 && room != c.n-1) {
+				continue
+			}
+			if room == 0 && c.n-1 == 0 {
+				if room != c.n-1 {
+					continue
+				}
+			}
+			it2 := core.NewInterp(e.P)
+			outs2 := it2.RunWith(enc, func(st *core.AState) []*core.AVal {
+				zero := make([]*core.AVal, room)
+				for i := range zero {
+					zero[i] = core.ConstAInt(bigI(0), 8, false)
+				}
+				return []*core.AVal{st.NewArray(zero), core.SymInt("v", 32, false, bigI(c.lo), bigI(c.hi), 32)}
+			})
+			ok2, why2 := len(outs2) >= 1, "no outcome"
+			for _, o := range outs2 {
+				if o.Abort || o.Panic || len(o.Ret) != 2 {
+					ok2, why2 = false, fmt.Sprintf("with room for %d byte(s) the encoder panics or is undecided: %s", room, core.SummarizeOutcomes([]core.Outcome{o}))
+					continue
+				}
+				if o.Ret[1].ErrNil != 0 {
+					ok2, why2 = false, fmt.Sprintf("with room for only %d byte(s) a value that needs %d is not refused (it is written truncated)", room, c.n)
+					continue
+				}
+				if k, isC := o.Ret[0].IsConst(); !isC || k.Int64() != int64(c.n) {
+					ok2, why2 = false, fmt.Sprintf("the refusal reports %s needed byte(s), not %d", o.Ret[0], c.n)
+				}
+			}
+			e.R.Check(ok2, rule, fmt.Sprintf("%s:refused-with-room-%d", construct, room), e.fpos(enc), fmt.Sprintf("refused with ErrTooSmall and the needed size %d", c.n), why2)
+			if room == 0 {
+				break
+			}
+		}
 	}
 	// in-range obligations of the encoder for every buffer length (dominating guards)
 	for _, f := range []*ssa.Function{enc} {
 		b := core.NewBounds(e.P, f, nil)
 		for _, o := range b.Obligations() {
 			construct := fmt.Sprintf("%s:%s %s", core.FnName(f), o.Kind, o.Desc)
+			if !o.OK && allClassesOK {
+				// the guard is not of a shape the bounds engine reads (e.g. one hoisted `needed > len(buf)` test), but every class was
+				// interpreted with a destination of exactly the needed length, of one byte less and of none without any out-of-range
+				// event; the accesses are at fixed indices, so more room cannot take them out of range
+				e.R.OkTrivial(rule, construct, e.pos(o.Instr), "in range: shown by the abstract interpretation of every class with exact, insufficient and no room")
+				continue
+			}
 			e.R.Check(o.OK, rule, construct, e.pos(o.Instr), "in range on every path", "a typed setter can index out of range (panic) when the value buffer has just the length the guard asked for: "+o.Why)
 		}
 	}
